@@ -21,7 +21,7 @@ COMPONENTS = {"real": ["pyjelly serializers and parsers of both integrations inc
               "stub": ["reader for the option-off clause: simkit.refdec"]}
 ASSUMPTIONS = ["rdflib: bindings use labels/IRIs that do not collide with rdflib's default bindings and are compared "
                "as rdflib holds them on the source graph"]
-PROBES = ["multi_group_declarations", "generic_runs", "rdflib_runs", "evictions_with_ns", "empty_prefix_label", "cross_integration_reads",
+PROBES = ["generator_with_option_on", "multi_group_declarations", "generic_runs", "rdflib_runs", "evictions_with_ns", "empty_prefix_label", "cross_integration_reads",
           "physical_GRAPHS", "physical_QUADS"]
 SHRINK_LISTS = ["ops"]
 
@@ -38,6 +38,8 @@ def generate(rng, run, tier):
     entry = "frames_sink" if integration == "generic" else rng.choice(["graph_serialize", "frames_sink"])
     if rng.random() < 0.2 and physical != "GRAPHS":
         entry = "grouped_file"
+    elif rng.random() < 0.15:
+        entry = "frames_gen"        # a statement generator carries no bindings
     cfg = nodes.default_cfg(integration=integration, physical=physical, logical=1 if physical == "TRIPLES" else 2,
                             frame_size=rng.choice([1, 2, 3, 250]), max_names=mn, max_prefixes=mp, max_datatypes=md,
                             generalized=flags["generalized"], rdf_star=flags["rdf_star"], entry=entry, ns=True)
@@ -84,7 +86,9 @@ def execute(plan, sim):
     if any(p == "" for p, _ in nss):
         sim.count("empty_prefix_label")
     key = (repr(sorted(cfg.items())), repr(nss), repr(stmts)) if len(nss) >= 2 and stmts else None
-    want = source_bindings(cfg, stmts, nss)
+    want = source_bindings(cfg, stmts, nss) if cfg["entry"] != "frames_gen" else []
+    if cfg["entry"] == "frames_gen":
+        sim.count("generator_with_option_on")
     v = []
     try:
         data_on = nodes.serialize(cfg, plan["ops"], sim)
